@@ -2230,6 +2230,7 @@ class EdgeQLSourceGenerator(codegen.SourceGenerator):
 
     def visit_CreateIndexMatch(self, node: qlast.CreateIndexMatch) -> None:
         def after_name() -> None:
+            self.write(' ')
             self.visit(node.valid_type)
             self._write_keywords(' using ')
             self.visit(node.name)
@@ -2241,6 +2242,7 @@ class EdgeQLSourceGenerator(codegen.SourceGenerator):
 
     def visit_DropIndexMatch(self, node: qlast.DropIndexMatch) -> None:
         def after_name() -> None:
+            self.write(' ')
             self.visit(node.valid_type)
             self._write_keywords(' using ')
             self.visit(node.name)
